@@ -12,6 +12,10 @@ pub use web_time::Instant;
 
 /// Checks if a deadline was exeeded.
 pub fn deadline_exceeded(deadline: Option<Instant>) -> bool {
+    #[cfg(similar_verif)]
+    if let Some(rv) = crate::verif::clock_exceeded(deadline) {
+        return rv;
+    }
     #[allow(unreachable_code)]
     match deadline {
         Some(deadline) => {
@@ -28,6 +32,10 @@ pub fn deadline_exceeded(deadline: Option<Instant>) -> bool {
 /// Converst a duration into a deadline.  This can be a noop on wasm
 #[allow(unused)]
 pub fn duration_to_deadline(add: Duration) -> Option<Instant> {
+    #[cfg(similar_verif)]
+    if let Some(rv) = crate::verif::clock_now_plus(add) {
+        return rv;
+    }
     #[allow(unreachable_code)]
     #[cfg(all(target_arch = "wasm32", not(feature = "wasm32_web_time")))]
     {
